@@ -130,6 +130,7 @@ class Facts:
         self.impls = []
         self.traits = {}
         self.sigs = {}     # id -> declared signature (unexpanded type aliases)
+        self.consts = {}   # id -> constant with initialiser HIR
         self.crates = {}
         for f in sorted(glob.glob(os.path.join(self.dir, "*.jsonl"))):
             base = os.path.basename(f)
@@ -161,6 +162,8 @@ class Facts:
                         self.traits[r["id"]] = r
                     elif k == "sig":
                         self.sigs[r["id"]] = r
+                    elif k == "const":
+                        self.consts[r["id"]] = r
         self.by_name = {}
         for i, r in self.fns.items():
             self.by_name.setdefault(r["name"], []).append(i)
